@@ -327,57 +327,52 @@ func runC16(c *Ctx) {
 	}
 }
 
-// checkQualifierFirst: in a qualifier-aware sink the case reading Schema.Name
-// follows a case that tests the requested qualifier for non-nil.
+// checkQualifierFirst: in a qualifier-aware sink every read of Schema.Name is
+// reachable from the entry only through the edge on which the requested
+// qualifier is nil (switch or if/else form).
 func checkQualifierFirst(c *Ctx, fi *FuncInfo) {
 	info := fi.Info()
-	ok := false
-	var where token.Pos
-	ast.Inspect(fi.Decl.Body, func(m ast.Node) bool {
-		sw, isSw := m.(*ast.SwitchStmt)
-		if !isSw || sw.Tag != nil {
+	f := newFlow(info, fi.Decl.Body)
+	readsName := func(n ast.Node) bool {
+		hit := false
+		walkShallow(n, func(m ast.Node) bool {
+			if se, ok := m.(*ast.SelectorExpr); ok && isField(info, se, pSchema, "Schema", "Name") {
+				hit = true
+			}
 			return true
+		})
+		return hit
+	}
+	isQual := func(e ast.Expr) bool {
+		se, ok := e.(*ast.SelectorExpr)
+		if !ok || (se.Sel.Name != "Schema" && se.Sel.Name != "SchemaQualifier") {
+			return false
 		}
-		qualSeen := false
-		for _, cl := range sw.Body.List {
-			cc := cl.(*ast.CaseClause)
-			readsName := false
-			for _, e := range cc.List {
-				ast.Inspect(e, func(k ast.Node) bool {
-					if se, isSe := k.(*ast.SelectorExpr); isSe && isField(info, se, pSchema, "Schema", "Name") {
-						readsName = true
-					}
-					return true
-				})
+		pt, ok := info.TypeOf(e).(*types.Pointer)
+		if !ok {
+			return false
+		}
+		b, ok := pt.Elem().Underlying().(*types.Basic)
+		return ok && b.Kind() == types.String
+	}
+	qualNilEdge := func(b *cfg.Block, si int) bool {
+		return edgeImplies(b, si, func(e ast.Expr, val bool) bool {
+			be, ok := e.(*ast.BinaryExpr)
+			if !ok || !isNilIdent(info, be.Y) || !isQual(be.X) {
+				return false
 			}
-			for _, st := range cc.Body {
-				ast.Inspect(st, func(k ast.Node) bool {
-					if se, isSe := k.(*ast.SelectorExpr); isSe && isField(info, se, pSchema, "Schema", "Name") {
-						readsName = true
-					}
-					return true
-				})
-			}
-			if readsName {
-				where = cc.Pos()
-				ok = qualSeen
-			}
-			for _, e := range cc.List {
-				for _, fct := range impliedFacts(e, true) {
-					if be, isBin := fct.expr.(*ast.BinaryExpr); isBin && be.Op == token.NEQ && fct.val && isNilIdent(info, be.Y) {
-						if se, isSe := be.X.(*ast.SelectorExpr); isSe && (se.Sel.Name == "Schema" || se.Sel.Name == "SchemaQualifier") {
-							if pt, isPtr := info.TypeOf(be.X).(*types.Pointer); isPtr {
-								if b, isB := pt.Elem().Underlying().(*types.Basic); isB && b.Kind() == types.String {
-									qualSeen = true
-								}
-							}
-						}
-					}
-				}
+			return (be.Op == token.NEQ && !val) || (be.Op == token.EQL && val)
+		})
+	}
+	// a condition that itself mixes the qualifier test and the name read is not accepted
+	n, found := f.reachEx([]point{f.entry()}, nil, readsName, qualNilEdge)
+	tested := false
+	for _, b := range f.G.Blocks {
+		for si := range b.Succs {
+			if qualNilEdge(b, si) {
+				tested = true
 			}
 		}
-		return true
-	})
-	// every read of Schema.Name in the function must be inside that switch
-	c.Check("R16a", fi.Name+"|qualifier tested before the schema's own name", where, ok, "in %s the schema's own name is consulted before (or without) the case that tests the requested qualifier: a requested qualifier would be ignored", fi.Name)
+	}
+	c.Check("R16a", fi.Name+"|qualifier tested before the schema's own name", nodePos(n, fi.Decl.Pos()), tested && !found, "in %s the schema's own name is consulted at %s on a path that did not first establish that no qualifier was requested: a requested qualifier would be ignored", fi.Name, c.nodeAt(n))
 }
